@@ -634,7 +634,7 @@ def sec_normal(ck):
         x, mu, s = float(outs["slp_s"]), float(ins["loc"]), float(ins["sc"])
         want = float(Normal(jnp.asarray(mu, jnp.float32), jnp.asarray(s, jnp.float32)).log_prob(jnp.asarray(x, jnp.float32)))
         return abs(float(outs["slp_lp"]) - want) > 1e-3 * (1 + abs(want)), {"returned_log_prob": float(outs["slp_lp"]), "log_prob_of_returned_sample": want}
-    tame = between([S["loc"][()]] + uf_terms(it, "RAND_normal"), -1, 1) + between([sc], Fraction(1, 2), 2)
+    tame = between([S["loc"][()]] + uf_terms(it, "RAND_normal"), -1, 1) + between([sc], Fraction(3, 2), 2)
     gn = eq_arr(out["slp_lp"], o2["lp"])
     ck.prove("normal.sample_logprob_consistent", asm, gn, replay=judge_replay(tr, S, it.uf_apps, jcons), nonlinear=True, margin_goal=mg(tame, gn))
     ck.control("control.normal.logprob_ignores_scale", asm, eq_arr(out["slp_lp"], arr0(it.o.sub(o2["lp"][()], 1))), nonlinear=True)
@@ -659,7 +659,7 @@ def sec_mvn(ck, D):
         b1 = abs(float(outs["lp"]) - float(np.sum(outs["comp_lp"]))) > 1e-3 * (1 + abs(float(outs["lp"])))
         b2 = abs(float(outs["ent"]) - float(np.sum(outs["comp_ent"]))) > 1e-3
         return b1 or b2, {"log_prob": float(outs["lp"]), "sum_of_component_log_probs": float(np.sum(outs["comp_lp"])), "entropy": float(outs["ent"]), "sum_of_component_entropies": float(np.sum(outs["comp_ent"]))}
-    tame = between(list(S["loc"]) + list(S["v"]) + uf_terms(it, "RAND_normal"), -1, 1) + between(list(S["sc"]), Fraction(1, 2), 2)
+    tame = between(list(S["loc"]) + list(S["v"]) + uf_terms(it, "RAND_normal"), -1, 1) + between(list(S["sc"]), Fraction(3, 2), 2)
     gp = conj([eq_arr(out["lp"], arr0(slp)), eq_arr(out["ent"], arr0(sent)), eq_arr(out["mode"], S["loc"])])
     ck.prove(f"mvn_diag.product_sum@D={D}", asm, gp, replay=judge_replay(tr, S, it.uf_apps, jprod), nonlinear=True, margin_goal=mg(tame, gp))
     o2 = tr.run(it, tr.symbols(it, given={"loc": S["loc"], "sc": S["sc"], "key": S["key"], "v": out["slp_s"]}))
@@ -768,7 +768,7 @@ def sec_squashed_real(ck, D):
         return None
     dom0 = [z3.And(4 * v >= 3 * l_ + h, 4 * v <= l_ + 3 * h) for v, l_, h in zip(y, lo, hi)]
     ck.prove(f"{name}.prob_is_exp_logprob{tag}", asm, eq_arr(out["p"], arr0(it.o.unary("exp", out["lp"][()]))), replay=judge_replay(tr, S, it.uf_apps, jexp),
-             margin_goal=mg(dom0 + between(hi + lo, -3, 3) + [h - l_ >= 1 for h, l_ in zip(hi, lo)] + between(sc, Fraction(1, 2), 2) + between(loc, -1, 1), eq_arr(out["p"], arr0(it.o.unary("exp", out["lp"][()])))))
+             margin_goal=mg(dom0 + between(hi + lo, -3, 3) + [h - l_ >= 1 for h, l_ in zip(hi, lo)] + between(sc, Fraction(3, 2), 2) + between(loc, -1, 1), eq_arr(out["p"], arr0(it.o.unary("exp", out["lp"][()])))))
     # support: samples and the mode lie in [low, high]
     inb = []
     for nm in ("sample", "slp_s", "mode"):
@@ -778,7 +778,7 @@ def sec_squashed_real(ck, D):
         l_, h = np.asarray(ins["lo"], float).reshape(-1), np.asarray(ins["hi"], float).reshape(-1)
         bad = any(np.any((np.asarray(outs[nm], float).reshape(-1) < l_ - 1e-6) | (np.asarray(outs[nm], float).reshape(-1) > h + 1e-6)) for nm in ("sample", "slp_s", "mode"))
         return bad, {}
-    tame = between(loc + uf_terms(it, "RAND_normal"), -1, 1) + between(sc, Fraction(1, 2), 2) + between(hi + lo, -3, 3) + [h - l_ >= 1 for h, l_ in zip(hi, lo)]
+    tame = between(loc + uf_terms(it, "RAND_normal"), -1, 1) + between(sc, Fraction(3, 2), 2) + between(hi + lo, -3, 3) + [h - l_ >= 1 for h, l_ in zip(hi, lo)]
     ck.prove(f"{name}.support{tag}", asm, conj(inb), replay=judge_replay(tr, S, it.uf_apps, jsup), nonlinear=True, margin_goal=mg(tame, conj(inb)))
     # mode: fallback through the bijector = image of the base mode (= loc) under the squashing the sampler applies
     ns = uf_terms(it, "RAND_normal")
@@ -847,7 +847,7 @@ def sec_squashed_log(ck, D):
         want = float(dist.log_prob(jnp.asarray(outs["slp_s"], jnp.float32)))
         got = float(np.sum(outs["slp_lp"]))
         return (np.shape(outs["slp_lp"]) != () or not np.isfinite(want) or abs(got - want) > 2e-2 * (1 + abs(want))), {"returned_log_prob": np.asarray(outs["slp_lp"]).tolist(), "log_prob_of_returned_sample": want}
-    tame = between(loc + ns, -1, 1) + between(sc, Fraction(1, 2), 2) + between(hi + lo, -3, 3) + [h - l_ >= 1 for h, l_ in zip(hi, lo)]
+    tame = between(loc + ns, -1, 1) + between(sc, Fraction(3, 2), 2) + between(hi + lo, -3, 3) + [h - l_ >= 1 for h, l_ in zip(hi, lo)]
     _prove_log(ck, f"{name}.sample_logprob_consistent{tag}", asm, goal, judge_replay(tr, S, it.uf_apps, jcons), tame=tame)
     if not vec:
         ck.witness("witness.squashed_normal.params", asm + it.side_conds(), nonlinear=True)
@@ -912,7 +912,7 @@ def sec_squashed_onto_and_jacobian(ck):
         lhs_ = np.exp(lpy) * float(outs["dy"])
         rhs_ = float(np.exp(outs["base_lp"]))
         return (not np.isfinite(lhs_)) or abs(lhs_ - rhs_) > 2e-2 * (abs(rhs_) + 1e-6), {"exp(log_prob(f(x)))*f'(x)": lhs_, "base_density(x)": rhs_}
-    tame = between([Sj["loc"][()], x], -1, 1) + between([sc], Fraction(1, 2), 2) + between([hi, lo], -3, 3) + [hi - lo >= 1]
+    tame = between([Sj["loc"][()], x], -1, 1) + between([sc], Fraction(3, 2), 2) + between([hi, lo], -3, 3) + [hi - lo >= 1]
     _prove_log(ck, "squashed.jacobian@squashed_normal", asmj, goal, judge_replay(trj, Sj, ij.uf_apps, jjac), tame=tame)
     ck.witness("witness.squashed.jacobian.params", asmj + ij.side_conds(), nonlinear=True)
     fs = [sc > 0, hi > lo, x <= XB, neg(goal)]
